@@ -257,6 +257,35 @@ def wrapper_pass(ctx, a, b, trees):
             ctx.check("B.wrap.global", ok, SITE_GR, wc, "wrapper weights %s for grid %s" % (w[:6], grid[:6]))
 
 
+def wrapper2d_pass(ctx, boxes, trees, options=None):
+    """one 2-D GlobalRombergGrid (cache on) whose two dimensions have DIFFERENT extents but are refined by the same tree: every dimension's
+    weights must fit that dimension's own interval (the weight cache must not hand the weights of one interval to another)"""
+    from sparseSpACE.Grid import GlobalRombergGrid
+    from sparseSpACE.Extrapolation import SliceGrouping, SliceVersion, SliceContainerVersion
+    for grouping, slice_v, container in (options or itertools.product(GROUPINGS, SLICES, CONTAINERS)):
+        wc = wclass(grouping, slice_v, container)
+        for (a0, b0), (a1, b1) in boxes:
+            R = GlobalRombergGrid([a0, a1], [b0, b1], slice_grouping=SliceGrouping[grouping], slice_version=SliceVersion[slice_v],
+                                  container_version=SliceContainerVersion[container])
+            for tr in trees:
+                levels = levels_of(tr)
+                g0, _ = grid_from_levels(a0, b0, levels)
+                g1, _ = grid_from_levels(a1, b1, levels)
+                ctx.case({"kind": "wrapper2d", "box": [[a0, b0], [a1, b1]], "levels": levels, "grouping": grouping, "slice": slice_v, "container": container},
+                         nontrivial=len(levels) > 2)
+                ws = None
+                with ctx.guard("B.wrap.global", SITE_GR, wc + "-raises"):
+                    with quiet():
+                        R.set_grid([list(g0), list(g1)], [list(levels), list(levels)])
+                    ws = [[float(x) for x in R.weights[d]] for d in range(2)]
+                if ws is None:
+                    continue
+                for d, (g, a, b) in enumerate(((g0, a0, b0), (g1, a1, b1))):
+                    w = ws[d]
+                    ok = len(w) == len(g) and moment_defect(w, g, a, b, 0) <= 1e-10 and moment_defect(w, g, a, b, 1) <= 1e-10
+                    ctx.check("B.wrap.global", ok, SITE_GR, wc, "2-D wrapper, dimension %d on [%r,%r]: weights %s for grid %s" % (d, a, b, w[:6], g[:6]))
+
+
 # ----------------------------------------------------------------------------------------------------------------
 def option_tuples(levels):
     for grouping, slice_v, container, balanced in itertools.product(GROUPINGS, SLICES, CONTAINERS, (False, True)):
@@ -298,6 +327,7 @@ def run(ctx):
     # wrappers with cache
     for (a, b) in intervals[:2]:
         wrapper_pass(ctx, a, b, all_trees(3))
+    wrapper2d_pass(ctx, [((0.0, 1.0), (-1.0, 2.0)), ((-3.0, 6.0), (0.0, 1.0))], all_trees(3))
     # all trees of depth <= 4, all options
     for (a, b) in intervals:
         for t in trees4:
@@ -341,6 +371,9 @@ def replay(ctx, case):
         balanced_case(ctx, case)
     elif kind == "completion":
         completion_case(ctx, case)
+    elif kind == "wrapper2d":
+        box = [tuple(x) for x in case["box"]]
+        wrapper2d_pass(ctx, [tuple(box)], all_trees(3), options=[(case["grouping"], case["slice"], case["container"])])
     else:  # wrapper: a single request on a fresh wrapper (the cache interplay needs the whole pass)
         from sparseSpACE.Grid import GlobalRombergGrid
         from sparseSpACE.Extrapolation import SliceGrouping, SliceVersion, SliceContainerVersion
